@@ -364,13 +364,15 @@ func (r *rw) rewrite(n ast.Node) string {
 	case *ast.SendStmt:
 		r.requireList(x)
 		s := q("send " + r.site(x))
-		return "vsched.Pre(" + s + "); " + r.emitChildren(x) + "; vsched.Post(" + s + ")"
+		tk := r.newTmp("t")
+		return tk + " := vsched.Pre(" + s + "); " + r.emitChildren(x) + "; vsched.Post(" + tk + ", " + s + ")"
 
 	case *ast.ExprStmt:
 		if _, ok := isRecv(x.X); ok {
 			r.requireList(x)
 			s := q("recv " + r.site(x))
-			return "vsched.Pre(" + s + "); " + r.recvText(x.X) + "; vsched.Post(" + s + ")"
+			tk := r.newTmp("t")
+			return tk + " := vsched.Pre(" + s + "); " + r.recvText(x.X) + "; vsched.Post(" + tk + ", " + s + ")"
 		}
 		if isCallTo(x.X, "", "close") {
 			r.requireList(x)
@@ -389,7 +391,8 @@ func (r *rw) rewrite(n ast.Node) string {
 		for _, l := range x.Lhs {
 			lhs = append(lhs, r.emit(l))
 		}
-		return "vsched.Pre(" + s + "); " + strings.Join(lhs, ", ") + " " + x.Tok.String() + " " + r.recvText(x.Rhs[0]) + "; vsched.Post(" + s + ")"
+		tk := r.newTmp("t")
+		return tk + " := vsched.Pre(" + s + "); " + strings.Join(lhs, ", ") + " " + x.Tok.String() + " " + r.recvText(x.Rhs[0]) + "; vsched.Post(" + tk + ", " + s + ")"
 
 	case *ast.DeferStmt:
 		return "defer func() { vsched.Yield(" + q("close "+r.site(x)) + "); " + r.emitChildren(x.Call) + " }()"
@@ -537,7 +540,8 @@ func (r *rw) rewriteSelect(sel *ast.SelectStmt, label string) string {
 			fmt.Fprintf(&b, "%sselect {\ncase %s:\n%s\ndefault:\n%s}\n}", lbl, cases[0].comm(chans[0]), bodies[0], defText)
 			return b.String()
 		}
-		fmt.Fprintf(&b, "vsched.Enter(%s)\n%sselect {\ncase %s:\nvsched.Post(%s)\n%s}\n}", q(site), lbl, cases[0].comm(chans[0]), q(site), bodies[0])
+		tk := r.newTmp("t")
+		fmt.Fprintf(&b, "%s := vsched.Enter(%s)\n%sselect {\ncase %s:\nvsched.Post(%s, %s)\n%s}\n}", tk, q(site), lbl, cases[0].comm(chans[0]), tk, q(site), bodies[0])
 		return b.String()
 	}
 	kvar, dvar := r.newTmp("k"), r.newTmp("d")
@@ -573,9 +577,10 @@ func (r *rw) rewriteSelect(sel *ast.SelectStmt, label string) string {
 			b.WriteString(defText)
 		} else {
 			b.WriteString("if " + dvar + " { vsched.MootLast() }\n")
-			fmt.Fprintf(&b, "vsched.Enter(%s)\nselect {\n", q(site))
+			tk := r.newTmp("t")
+			fmt.Fprintf(&b, "%s := vsched.Enter(%s)\nselect {\n", tk, q(site))
 			for i := range cases {
-				fmt.Fprintf(&b, "case %s:\nvsched.Post(%s)\n%s\n", cases[i].comm(chans[i]), q(site), bodies[i])
+				fmt.Fprintf(&b, "case %s:\nvsched.Post(%s, %s)\n%s\n", cases[i].comm(chans[i]), tk, q(site), bodies[i])
 			}
 			b.WriteString("}\n")
 		}
